@@ -2,6 +2,7 @@ import Rare.Proofs.C12Parse
 import Rare.Proofs.C12Grammar
 import Rare.Proofs.C12Scan
 import Rare.Proofs.C12Ext
+import Rare.Proofs.C12Amd64
 import Rare.Gen.C12
 /-!
 Property C12 – dissect matching equals its specification; ignore-case only adds matches.
@@ -603,6 +604,121 @@ theorem must_compile_panics_iff_not_pattern (s : Bytes) :
 theorem gen_lowerByte_eq (c : UInt8) : Gen.C12.lowerByte c = lowerByte c := by
   simp [Gen.C12.lowerByte, lowerByte]
 
+/-! ### Round 4b – histories on one instance, the amd64 arm of `strings.Index`, state of the types -/
+
+/-- **The answer for a line does not depend on what the instance matched before or after**
+("forall sequences of lines matched by one instance"): in ANY history `hist ++ line :: more` run by
+one instance, the slice returned for `line` – re-read after the last call – is the answer a fresh
+instance gives for `line` alone.  An instance that remembered anything about earlier lines (a column
+at which a literal was found, a previous result) and let it influence a later answer would make this
+false; the correspondence op `hist` runs the real code three ways (one instance / fresh instance per
+line / one instance over a re-used buffer) on histories built to tempt such a memory. -/
+theorem history_independent (ic : Bool) (p : Pat) (hp : p.Shape) (d : Dissect)
+    (hc : compileEx p.render ic = .ok d) (hist : List Bytes) (line : Bytes) (more : List Bytes) :
+    ∃ before r after, matchAll d (hist ++ line :: more) = .ok (before ++ r :: after) ∧
+      before.length = hist.length ∧ matchAll d [line] = .ok [r] := by
+  refine ⟨hist.map fun l => (specFor ic p l).map (·.map Int.ofNat), (specFor ic p line).map (·.map Int.ofNat),
+    more.map fun l => (specFor ic p l).map (·.map Int.ofNat), ?_, by simp, ?_⟩
+  · rw [dissect_eq_spec ic p hp d hc]; simp
+  · rw [dissect_eq_spec ic p hp d hc]; simp
+
+/-- …hence the ORDER in which one instance is given the lines is irrelevant: a permutation of the
+lines yields the same permutation of the results (batches may reach a worker in any order). -/
+theorem order_irrelevant (ic : Bool) (p : Pat) (hp : p.Shape) (d : Dissect)
+    (hc : compileEx p.render ic = .ok d) (l₁ l₂ : List Bytes) (h : l₁.Perm l₂) :
+    ∃ r₁ r₂, matchAll d l₁ = .ok r₁ ∧ matchAll d l₂ = .ok r₂ ∧ r₁.Perm r₂ :=
+  ⟨_, _, dissect_eq_spec ic p hp d hc l₁, dissect_eq_spec ic p hp d hc l₂, h.map _⟩
+
+/-- **The leading literal is located at its FIRST occurrence – after any history, in both modes.**
+Whatever lines the instance matched before, a match of `line` starts at an `s` with
+`s + len(prefix) ≤ len(line)`, the bytes `line[s : s+len(prefix)]` equal the prefix (after the mode's
+fold: identity, or the byte-wise ASCII fold for ignore-case), and NO earlier position `j < s` holds
+the (folded) prefix.  (`ci_offsets_index_original` is the single-line ignore-case instance.) -/
+theorem leading_literal_first (ic : Bool) (p : Pat) (hp : p.Shape) (d : Dissect)
+    (hc : compileEx p.render ic = .ok d) (hist : List Bytes) (line : Bytes)
+    (before : List (Option (List Int))) (r : List Int)
+    (h : matchAll d (hist ++ [line]) = .ok (before ++ [some r])) (hlen : before.length = hist.length) :
+    ∃ (s : Nat) (rest : List Int), r = (s : Int) :: rest ∧ s + p.pre.length ≤ line.length ∧
+      foldFor ic ((line.drop s).take p.pre.length) = foldFor ic p.pre ∧
+      ∀ j < s, ¬ foldFor ic p.pre <+: foldFor ic (line.drop j) := by
+  rw [dissect_eq_spec ic p hp d hc] at h
+  simp only [List.map_append, List.map_cons, List.map_nil, Except.ok.injEq] at h
+  have h2 := (List.append_inj h (by simp [hlen])).2
+  simp only [List.cons.injEq, and_true] at h2
+  cases hs : specFor ic p line with
+  | none => rw [hs] at h2; cases h2
+  | some r0 =>
+    rw [hs] at h2
+    simp only [Option.map_some, Option.some.injEq] at h2
+    cases ic with
+    | false =>
+      obtain ⟨s, rest, h1, h3, h4, h5⟩ := specDissect_leading (by simpa [specFor] using hs)
+      exact ⟨s, rest.map Int.ofNat, by rw [← h2, h1]; rfl, h3, by simpa [foldFor] using h4, by simpa [foldFor] using h5⟩
+    | true =>
+      obtain ⟨s, rest, h1, h3, h4, h5⟩ := specDissectIC_leading (by simpa [specFor] using hs)
+      exact ⟨s, rest.map Int.ofNat, by rw [← h2, h1]; rfl, h3, by simpa [foldFor] using h4, by simpa [foldFor] using h5⟩
+
+/-- Kernel-checked histories in which a remembered column would be valid evidence for a wrong answer.
+(1) `id=%{v};` on `xxxxxid=1;` (prefix at column 5) and then `id=2;id=3;` (prefix at column 0 AND at
+column 5): the second answer is `[0,5,3,4]` (v = `2`), not `[5,10,8,9]`.  (2) `a%{v}b` on `..a1b` and
+then `aba`: `[0,2,1,1]` – starting at the remembered column 2 there would be no match at all.
+(3) the same as (1) with ignore-case and mixed-case lines.  (4) ignore-case finds the first occurrence
+in ANY case: `user=%{u} msg=%{m}` on `USER=bob MSG=hello user=x msg=y` gives u = `bob` ([5,8]), not `x`. -/
+theorem history_witnesses :
+    matchAll (compiled false histPat)
+      [[120, 120, 120, 120, 120, 105, 100, 61, 49, 59], [105, 100, 61, 50, 59, 105, 100, 61, 51, 59]] =
+      .ok [some [5, 10, 8, 9], some [0, 5, 3, 4]] ∧
+    matchAll (compiled false ⟨[97], [⟨[118], [98]⟩]⟩) [[46, 46, 97, 49, 98], [97, 98, 97]] =
+      .ok [some [2, 5, 3, 4], some [0, 2, 1, 1]] ∧
+    matchAll (compiled true histPat)
+      [[120, 120, 120, 120, 120, 105, 100, 61, 49, 59], [73, 100, 61, 50, 59, 105, 68, 61, 51, 59]] =
+      .ok [some [5, 10, 8, 9], some [0, 5, 3, 4]] ∧
+    matchAll (compiled true ⟨[117, 115, 101, 114, 61], [⟨[117], [32, 109, 115, 103, 61]⟩, ⟨[109], []⟩]⟩)
+      [[85, 83, 69, 82, 61, 98, 111, 98, 32, 77, 83, 71, 61, 104, 101, 108, 108, 111, 32,
+        117, 115, 101, 114, 61, 120, 32, 109, 115, 103, 61, 121]] = .ok [some [0, 31, 5, 8, 13, 31]] := by
+  simp only [matchAll_compiled, Except.ok.injEq]
+  decide
+
+/-- **`strings.Index` as this platform runs it** (go1.23 `stringslite.Index` compiled for amd64):
+the arm `case n <= bytealg.MaxLen` – a hay of at most `MaxBruteForce` = 64 bytes goes straight to the
+assembly routine `bytealg.IndexString`, a longer one through the `IndexByte`-skip loop that hands the
+rest `s[i:]` to `IndexString` once `fails > Cutover(i) = (i+16)/8` – and for longer needles the
+portable loop with Rabin–Karp.  For EVERY `MaxLen` (63 with AVX2, 31 without) and every routine `asm`
+that meets the documented contract of `IndexString` on needles of `2 … MaxLen` bytes (any hay, also
+one shorter than the needle – the loop does hand it such a rest), the result is the contract
+`stringsIndex` for ALL byte strings.  So the only thing taken on trust for needles up to 63 bytes is
+the assembly routine itself (compared by the `index` op); the dispatch around it is proved. -/
+theorem go_index_amd64_eq_contract (maxLen : Nat) (asm : Bytes → Bytes → Int)
+    (hasm : ∀ s' u : Bytes, 2 ≤ u.length → u.length ≤ maxLen → asm s' u = stringsIndex s' u)
+    (s sub : Bytes) :
+    goIndexAmd64 maxLen asm s sub = stringsIndex s sub ∧ goIndexAmd64 maxLen asm s sub = goIndex s sub := by
+  have h := goIndexAmd64_eq maxLen asm hasm s sub
+  exact ⟨h, by rw [h, goIndex_eq]⟩
+
+/-- With `MaxLen = 0` (a platform without the assembly routine) the amd64 text IS the portable
+search: the oracle is never consulted. -/
+theorem go_index_amd64_no_asm (asm : Bytes → Bytes → Int) (s sub : Bytes) :
+    goIndexAmd64 0 asm s sub = goIndex s sub := by
+  rw [(go_index_amd64_eq_contract 0 asm (fun _ u h2 h0 => by omega) s sub).2]
+
+/-- **Tie to the source (regenerated on every run)**: the STATE of the types.  A `DissectInstance`
+is the shared `*Dissect` plus its pool and nothing else (the model's `Instance`: `d`, `pool`) – there
+is no field in which an instance could remember anything about earlier lines; `Dissect` has the five
+fields of the model's `Dissect` (the function value `indexOf` is the model's flag `ic`), a token is
+(name, until, skip), an `IntPool` is (size, pool).  And the inventory of the three files: no further
+function, method or package-level variable stands next to the mirrored ones. -/
+theorem state_matches_source :
+    Gen.C12.instanceFields = ["*Dissect", "groupPool *slicepool.IntPool"] ∧
+    Gen.C12.dissectFields = ["tokens []token", "prefix string", "indexOf func(src, of string) int",
+      "groupNames map[string]int", "groupCount int"] ∧
+    Gen.C12.tokenFields = ["name string", "until string", "skip bool"] ∧
+    Gen.C12.intPoolFields = ["size int", "pool []int"] ∧
+    Gen.C12.dissectDecls = ["CompileEx", "Compile", "MustCompile", "Dissect.CreateInstance",
+      "DissectInstance.FindSubmatchIndex", "Dissect.SubexpNameTable"] ∧
+    Gen.C12.caseDecls = ["lowerByte", "lowerASCII", "indexIgnoreCase"] ∧
+    Gen.C12.intPoolDecls = ["NewIntPool", "IntPool.Get"] := by
+  decide
+
 /-! ### Non-vacuity: the hypotheses above are satisfiable on concrete, non-trivial values -/
 
 /-- `k=%{x} %{?s};%{y}` -/
@@ -665,5 +781,21 @@ example : (runTwo (compiled false exPat).createInstance (compiled false exPat).c
     some [true, false, false, true] := by decide +kernel
 -- named slots: `k=%{x} %{?s};%{y}` on `ak=1 2;3`: x ↦ 1 ↦ [3,4], y ↦ 2 ↦ [7,8]
 example : (compiled false exPat).groupNames = [([120], 1), ([121], 2)] ∧ (compiled false exPat).groupCount = 2 := by decide
+
+-- round 4b
+-- the contract itself is a routine that meets `hasm` (so `go_index_amd64_eq_contract` is not vacuous),
+-- and the amd64 text evaluated with it: a short hay (brute-force arm: the routine is called directly),
+-- a 70-byte hay whose needle sits at the very end (loop arm, cut-over to the routine after 3 fails)
+example : ∀ s' u : Bytes, 2 ≤ u.length → u.length ≤ 63 → stringsIndex s' u = stringsIndex s' u := fun _ _ _ _ => rfl
+example : goIndexAmd64 63 stringsIndex [97, 97, 97, 97, 97, 97, 97, 98] [97, 97, 98] = 5 := by decide
+example : goIndexAmd64 63 stringsIndex (List.replicate 67 97 ++ [97, 97, 98]) [97, 97, 98] = 67 := by decide
+-- a routine that is WRONG on short hays is visible through the amd64 text (the hypothesis is needed)
+example : goIndexAmd64 63 (fun _ _ => -1) [97, 97, 98] [97, 98] = -1 ∧ stringsIndex [97, 97, 98] [97, 98] = 1 := by decide
+-- `leading_literal_first`: a history and a result that satisfy its hypotheses
+example : matchAll (compiled false histPat)
+    ([[120, 120, 120, 120, 120, 105, 100, 61, 49, 59]] ++ [[105, 100, 61, 50, 59, 105, 100, 61, 51, 59]]) =
+    .ok ([some [5, 10, 8, 9]] ++ [some [0, 5, 3, 4]]) := by
+  simp only [matchAll_compiled, Except.ok.injEq]; decide
+example : histPat.Shape ∧ compileEx histPat.render false = .ok (compiled false histPat) := ⟨by decide, by rfl⟩
 
 end Rare.C12
